@@ -143,7 +143,7 @@ def applyPosts (noDef : Bool) (cands : List (String × RuleM × Bool)) (t : Tree
       let code : Except String J :=
         if !subvars then .ok ((Obj.get? ao "code").getD .null)
         else if Obj.get? tm "badjson" == some (.bool true) then .error "code is not JSON"
-        else substD dflt b ((Obj.get? tm "code").getD .null)
+        else substDX dflt b ((Obj.get? tm "code").getD .null)
       (match code with
        | .ok cj =>
          let body := Json.mkObj [("bindings", bsToJson b), ("opts", J.toJson ((Obj.get? ao "opts").getD .null)), ("code", J.toJson cj)]
